@@ -24,7 +24,9 @@ LEVEL_NOTE = "Bounds: path pool and variants as in evidence.bounds, N files. Tru
 # depth 0-3, shared prefixes, same basename in different folders, and top-level folder names that sort before and
 # after "./" (the root key) in every ordering a sorted() pass could use: '-' < '.' < '/' < '0' < 'A' < '_' < 'a' < '~'
 PATHS = ["a.py", "b.js", "d/a.py", "d/b.js", "d/e/a.py", "d/e/f/a.java", "e/a.py", "d2/e/a.py",
-         "-l/a.py", "+s/e/a.py", "0/a.py", "~t/a.py"]
+         "-l/a.py", "+s/e/a.py", "0/a.py", "~t/a.py",
+         # two DIFFERENT paths that are equal after Unicode normalisation (NFC vs NFD spelling of the same name)
+         "u/caf\u00e9.py", "u/cafe\u0301.py"]
 # pairwise distinct counts and sums per category; lengths ON the category bounds (15, 30, 60) included
 VARIANTS = [[], [15], [16, 30, 31], [60, 61, 62, 5, 40, 45, 30]]
 LANG = {"py": "Python", "js": "JavaScript", "java": "Java"}
@@ -68,9 +70,24 @@ def observe(files):
 
     out = []
     cb = Codebase("/r")
-    for p, ls in files:
+    if cb.all_measurements() or cb.total_loc():
+        out.append(("measurement-view-stale-or-wrong", {"view": "empty"}, "empty codebase reports measurements"))
+    for i, (p, ls) in enumerate(files):
         cb.add_file(harness.file_entry(p, lang_of(p), ls))
+        # the views that need no aggregate() are read after EVERY step (a memo filled here must not go stale)
+        so_far = [L for _, l2 in files[: i + 1] for L in l2]
+        if sorted(m.value for m in cb.all_measurements()) != sorted(so_far) or cb.total_loc() != sum(so_far) or len(cb.all_files()) != i + 1:
+            out.append(("measurement-view-stale-or-wrong", {"view": "all_measurements"}, f"after adding {p} (step {i}): {sorted(m.value for m in cb.all_measurements())} expected {sorted(so_far)}"))
+            break
     cb.aggregate()
+    from codelimit.common.report.Report import Report as _R
+
+    prof = [0, 0, 0, 0]
+    for _, ls in files:
+        for L in ls:
+            prof[category(L)] += L
+    if _R(cb).quality_profile() != prof:
+        out.append(("measurement-view-stale-or-wrong", {"view": "quality_profile"}, f"{_R(cb).quality_profile()} expected {prof}"))
     obs_totals = {k: (t.files, t.loc, t.functions, t.hard_to_maintain, t.unmaintainable) for k, t in cb.totals.items()}
     obs_tree = {}
     for key, folder in cb.tree.items():
@@ -159,7 +176,7 @@ def run(ctx: core.Ctx):
     for n in range(0, N + 1):
         for paths in itertools.combinations(PATHS, n):
             # 4 files: two variants per file (otherwise 495 x 256 x 24 histories)
-            vr = range(len(VARIANTS)) if n <= 3 else (1, 3)
+            vr = range(len(VARIANTS)) if n <= 2 else ((0, 2, 3) if n == 3 else (1, 3))
             for variants in itertools.product(vr, repeat=n):
                 combos.append((paths, variants))
     step = max(1, len(combos) // (ctx.workers * 4) + 1)
